@@ -554,21 +554,17 @@ orc_program_add_constant_str (OrcProgram *program, int size,
   orc_int64 val_i;
   double val_d;
   int j;
+  orc_union64 v;
 
-  i = ORC_VAR_C1 + program->n_const_vars;
-
-  if (program->n_const_vars >= ORC_MAX_CONST_VARS) {
-    orc_program_set_error (program, "too many constants allocated");
-    return 0;
-  }
+  v.i = 0;
 
   val_i = _strtoll (value, &end, 0);
   if (end[0] == 0) {
-    program->vars[i].value.i = val_i;
+    v.i = val_i;
     if (size == 0)
       size = 4;
   } else if ((end[0] == 'l' || end[0] == 'L') && end[1] == 0) {
-    program->vars[i].value.i = val_i;
+    v.i = val_i;
     if (size == 0)
       size = 8;
   } else {
@@ -577,11 +573,11 @@ orc_program_add_constant_str (OrcProgram *program, int size,
     if (end[0] == 0) {
       orc_union32 u;
       u.f = val_d;
-      program->vars[i].value.i = u.i;
+      v.i = u.i;
       if (size == 0)
         size = 4;
     } else if ((end[0] == 'l' || end[0] == 'L') && end[1] == 0) {
-      program->vars[i].value.f = val_d;
+      v.f = val_d;
       if (size == 0)
         size = 8;
     } else {
@@ -593,13 +589,21 @@ orc_program_add_constant_str (OrcProgram *program, int size,
    * constant per value.  A constant that was given a name of its own, e.g.
    * by a .const directive, must stay addressable under that name. */
   for(j=0;j<program->n_const_vars;j++){
-    if (program->vars[ORC_VAR_C1 + j].value.i == program->vars[i].value.i &&
+    if (program->vars[ORC_VAR_C1 + j].value.i == v.i &&
         program->vars[ORC_VAR_C1 + j].size == size &&
         name[0] == '_' && program->vars[ORC_VAR_C1 + j].name[0] == '_') {
       return ORC_VAR_C1 + j;
     }
   }
 
+  /* only a literal that is not in the pool yet needs a free slot */
+  if (program->n_const_vars >= ORC_MAX_CONST_VARS) {
+    orc_program_set_error (program, "too many constants allocated");
+    return 0;
+  }
+
+  i = ORC_VAR_C1 + program->n_const_vars;
+  program->vars[i].value = v;
   program->vars[i].vartype = ORC_VAR_TYPE_CONST;
   program->vars[i].size = size;
   program->vars[i].name = strdup(name);
